@@ -875,6 +875,54 @@ func legacyWidenCase(t *engine.T, cv elliptic.Curve, ki int) {
 		}
 		t.Nontrivial(fmt.Sprintf("legacy/chosen-small-r-s/%s/%s/%d", cn, key.Name, made))
 	}
+	// extreme digest x extreme abscissa of the verification point: R = [s]G + [t]P is CHOSEN (largest / smallest x on the
+	// curve, so x1 lies in [n, p) or near 0), the digest is chosen, r = (e + x1) mod n, s = t - r and the public key is
+	// P = t^-1 (R - [s]G). e + x1 then reaches 2n and beyond (two reductions needed), or stays below n.
+	if ki == 0 {
+		var Rs []ecref.Point
+		for _, st := range []struct {
+			x0  *big.Int
+			dir int64
+		}{{new(big.Int).Sub(c.P, one), -1}, {big.NewInt(0), 1}, {new(big.Int).Set(n), 1}, {new(big.Int).Sub(n, one), -1}} {
+			x := new(big.Int).Set(st.x0)
+			for i := 0; i < 4096; i++ {
+				if q, ok := c.LiftX(x, uint(i&1)); ok {
+					Rs = append(Rs, q)
+					break
+				}
+				x.Add(x, big.NewInt(st.dir))
+			}
+		}
+		max256 := new(big.Int).Sub(new(big.Int).Lsh(one, 256), one)
+		made := 0
+		for ri, R := range Rs {
+			for _, e := range []*big.Int{big.NewInt(0), one, new(big.Int).Sub(n, one), n, new(big.Int).Add(n, one), new(big.Int).Sub(max256, one), max256} {
+				for _, tv := range []*big.Int{one, big.NewInt(5)} {
+					r := new(big.Int).Mod(new(big.Int).Add(e, R.X), n)
+					s := new(big.Int).Mod(new(big.Int).Sub(tv, r), n)
+					if r.Sign() == 0 || s.Sign() == 0 {
+						continue
+					}
+					tInv := new(big.Int).ModInverse(tv, n)
+					P := c.Mul(tInv, c.Add(R, c.Neg(g.Mul(s))))
+					if P.Inf || !c.OnCurve(P) || !c.Verify(P, ecref.Bytes32(e), r, s) {
+						t.Fail("HARNESS/legacy-extreme-construction", "R#%d e=%x t=%v", ri, e, tv)
+						continue
+					}
+					made++
+					v := legacyDigestCtx(cv, c, P, e)
+					desc := fmt.Sprintf("%s constructed key, x1=%x e=%x t=%v (e+x1 = %d*n + ...)", cn, R.X, e, tv, new(big.Int).Div(new(big.Int).Add(e, R.X), n))
+					v.check(t, "legacy/extreme-e-x1/valid", desc, sigOf(r, s))
+					v.check(t, "legacy/extreme-e-x1/r+1", desc, sigOf(new(big.Int).Add(r, one), s))
+					legacyDigestCtx(cv, c, P, new(big.Int).Xor(e, one)).check(t, "legacy/extreme-e-x1/other-digest", desc, sigOf(r, s))
+				}
+			}
+		}
+		if made < 20 {
+			t.Fail("HARNESS/legacy-extreme-vacuous", "only %d signatures constructed", made)
+		}
+		t.Nontrivial(fmt.Sprintf("legacy/extreme-e-x1/%s/%d", cn, made))
+	}
 	// digest values and lengths
 	pub := legacyPub(cv, key.Pub)
 	for _, ev := range []*big.Int{big.NewInt(0), new(big.Int).Sub(n, one), n, new(big.Int).Add(n, big.NewInt(5)), new(big.Int).Sub(new(big.Int).Lsh(one, 256), one)} {
